@@ -113,6 +113,19 @@ CLAIMED = {
         note="Trusted: TLC, transcription of the CSS 2.1 table, concrete bytes chosen per class. Texts an encoding cannot represent and "
              "auto-detection without BOM/@charset are outside the quantifier. Three known findings (input ending inside the charset "
              "rule through the stream classes; detectencoding_unicode with final=True, pinned by an existing test)."),
+    "C08": dict(
+        technique="TLA+ precedence ladder Chosen(node, parentEnc, override) with hand-over rule (EncChainContract) and table-level "
+                  "lemmas checked by TLC; import chains, later-edit histories and escape cases enumerated by TLC (EncChain.tla); the "
+                  "adapter serves each node encoded in the encoding the SPEC chooses with distinguishing probe characters; TLC "
+                  "trace monitor",
+        text="Exhaustive over the row product for depth-1 chains (override x transport charset x BOM/@charset/neither x parent known "
+             "x bytes/text x fetcher None/(None,None)/data, four mutually distinguishable encodings), reduced product for depth 2 "
+             "(3 in the thorough tier), 1536 histories 'parse, change the encoding of root or imported sheet, add a new @import as "
+             "text / object / whole-text assignment', and 180 escape cases (6 target encodings x 6 character strings x 5 syntactic "
+             "positions). TLC checks reported encodings, probe text, loaded/unavailable imports, @charset mirror, decodability, "
+             "lossless reparse and that removing the rule reports utf-8.",
+        design_ref="DESIGN.md section 5 C08",
+        note="Trusted: TLC, probe characters pairwise distinguishable under the candidate encodings (DESIGN appendix B.5)."),
 }
 PENDING = "check not built yet in this round (see DESIGN.md section 10 build order); no claim is made"
 NOT_APPLICABLE = {}
